@@ -215,6 +215,30 @@ mod int {
         }
     }
 
+    pub(crate) fn shl(lhs: VmInt, rhs: VmInt) -> RuntimeResult<VmInt, String> {
+        if (0..64).contains(&rhs) {
+            RuntimeResult::Return(std::int::shl(lhs, rhs))
+        } else {
+            RuntimeResult::Panic(format!("attempted to shift left by {} bits", rhs))
+        }
+    }
+
+    pub(crate) fn arithmetic_shr(lhs: VmInt, rhs: VmInt) -> RuntimeResult<VmInt, String> {
+        if (0..64).contains(&rhs) {
+            RuntimeResult::Return(std::int::arithmetic_shr(lhs, rhs))
+        } else {
+            RuntimeResult::Panic(format!("attempted to shift right by {} bits", rhs))
+        }
+    }
+
+    pub(crate) fn logical_shr(lhs: VmInt, rhs: VmInt) -> RuntimeResult<VmInt, String> {
+        if (0..64).contains(&rhs) {
+            RuntimeResult::Return(std::int::logical_shr(lhs as u64, rhs as u64) as VmInt)
+        } else {
+            RuntimeResult::Panic(format!("attempted to shift right by {} bits", rhs))
+        }
+    }
+
     pub(crate) fn wrapping_rem_euclid(
         dividend: VmInt,
         divisor: VmInt,
@@ -623,9 +647,9 @@ pub fn load_int(vm: &Thread) -> Result<ExternModule> {
                 "std.int.prim.from_str_radix",
                 int::from_str_radix
             ),
-            shl => primitive!(2, std::int::shl),
-            arithmetic_shr => primitive!(2, std::int::arithmetic_shr),
-            logical_shr => primitive!(2, std::int::logical_shr),
+            shl => primitive!(2, "std::int::prim::shl", int::shl),
+            arithmetic_shr => primitive!(2, "std::int::prim::arithmetic_shr", int::arithmetic_shr),
+            logical_shr => primitive!(2, "std::int::prim::logical_shr", int::logical_shr),
             bitxor => primitive!(2, std::int::bitxor),
             bitand => primitive!(2, std::int::bitand),
             bitor => primitive!(2, std::int::bitor),
